@@ -98,6 +98,9 @@ def apply_ops(mesh, case):
                 mesh.Symmetry(mesh.center, tuple(op[1]))
             elif op[0] == "rotate":
                 mesh.Rotate(op[1], mesh.center, tuple(op[2]))
+            elif op[0] == "scale":
+                # change of length unit through the public coordinate setter
+                mesh.coord = np.asarray(mesh.coord, dtype=float) * float(op[1])
             elif op[0] == "evaluate":
                 X = np.asarray(mesh.coord, dtype=float)
                 conn = np.asarray(mesh.groupElem.connect)
@@ -118,6 +121,16 @@ def apply_ops(mesh, case):
         except Exception as ex:
             log.append(["op-error", op[0], "%s: %s" % (type(ex).__name__, ex)])
     return log
+
+
+def rel_residual(K, r):
+    """unit-free residual of a candidate kernel vector: max_i |(K r)_i| / sum_j |K_ij||r_j| (0 for an exact
+    kernel vector up to n*eps, O(1) when r is not in the kernel), whatever the length unit / dof mix"""
+    Kd = K.toarray() if hasattr(K, "toarray") else np.asarray(K)
+    num = np.abs(Kd @ r)
+    den = np.abs(Kd) @ np.abs(r)
+    ok = den > 0
+    return float((num[ok] / den[ok]).max()) if ok.any() else 0.0
 
 
 def spectrum(K, tolzero=1e-9):
@@ -166,8 +179,10 @@ def run_continuum(case, mesh):
         res["K"], res["M"] = sK, sM
         res["mass_prop"] = float(simu.mass)
         # energy of a random linear displacement u = A x + c
+        # homogeneous in the length unit: dimensionless gradient, offset proportional to the size
+        Lc = float(np.ptp(X, axis=0).max())
         A = rs.uniform(-1, 1, (dim, dim))
-        c = rs.uniform(-1, 1, dim)
+        c = rs.uniform(-1, 1, dim) * Lc
         U = X @ A.T + c
         u = np.zeros(mesh.Nn * dim)
         u[:] = U.ravel()
@@ -194,7 +209,7 @@ def run_continuum(case, mesh):
         for (a, b) in [(0, 1), (0, 2), (1, 2)][: (1 if dim == 2 else 3)]:
             t = np.zeros((mesh.Nn, dim)); t[:, a] = -X[:, b]; t[:, b] = X[:, a]
             rig.append(t.ravel())
-        res["rigid_residual"] = float(max(np.abs(K @ r).max() for r in rig))
+        res["rigid_residual"] = float(max(rel_residual(K, r) for r in rig))
     else:
         mat = Models.Thermal(k=p["k"], c=p["c"], thickness=p["thickness"])
         simu = Simulations.Thermal(mesh, mat)
@@ -204,13 +219,14 @@ def run_continuum(case, mesh):
         sK, Kd = spectrum(K[dofs][:, dofs])
         sC, Cd = spectrum(C[dofs][:, dofs])
         res["K"], res["M"] = sK, sC
-        a = rs.uniform(-1, 1, dim)
+        Lc = float(np.ptp(X, axis=0).max())
+        a = rs.uniform(-1, 1, dim) / Lc          # temperature varies by O(1) over the part, whatever the unit
         T = X @ a + 0.3
         res["lin_energy"] = float(T @ (K @ T))
         res["lin_density"] = float(p["k"] * (a @ a))
         one = np.ones(mesh.Nn)
         res["M_dir"] = [float(one @ (C @ one))]
-        res["rigid_residual"] = float(np.abs(K @ one).max())
+        res["rigid_residual"] = rel_residual(K, one)
         res["mass_prop"] = None
     return res
 
@@ -242,16 +258,24 @@ def run_beam(case):
     from EasyFEA.Geoms import Domain, Point, Line
     bd = case["beamDim"]
     n = case["n"]
+    sc = float(case.get("scale") or 1.0)
     b, h = case["b"], case["h"]
     p1 = case.get("p1", [0.0, 0.0, 0.0])
     p2 = case.get("p2", [case.get("L", 1.0), 0.0, 0.0])
     L = float(np.linalg.norm(np.array(p2) - np.array(p1)))
     mesher = Mesher()
     section = mesher.Mesh_2D(Domain(Point(-b / 2, -h / 2), Point(b / 2, h / 2)))
+    if sc != 1.0:
+        # a scaled twin scales the cross-section with the length unit (meshed at unit scale: gmsh has its
+        # own absolute geometric tolerance, then converted with the public coordinate setter)
+        section.coord = np.asarray(section.coord, dtype=float) * sc
     line = Line(Point(*p1), Point(*p2), L / n)
     kw = {} if case.get("yAxis") is None else {"yAxis": tuple(case["yAxis"])}
     beam = Models.Beam.Isotropic(bd, line, section, case["E"], case["v"], **kw)
     mesh = mesher.Mesh_Beams([beam], elemType=getattr(ElemType, case["elem"]))
+    if case.get("scale") is not None:
+        mesh.coord = np.asarray(mesh.coord, dtype=float) * float(case["scale"])
+        L = L * float(case["scale"])
     structure = Models.Beam.BeamStructure([beam])
     simu = Simulations.Beam(mesh, structure, useTimoshenko=case["timo"], verbosity=False)
     mesh = simu.mesh
@@ -264,8 +288,15 @@ def run_beam(case):
     K, C, M, F = simu.Get_K_C_M_F()
     dof_n = simu.Get_dof_n()
     dofs = used_dofs(mesh, dof_n)
-    sK, Kd = spectrum(K[dofs][:, dofs])
-    sM, Md = spectrum(M[dofs][:, dofs])
+    # unit-consistent spectra: rotational dofs are multiplied by the beam length (congruence D K D, D M D:
+    # same symmetry, definiteness and kernel dimension, but eigenvalues comparable whatever the length unit)
+    Dd = np.ones(mesh.Nn * dof_n)
+    for m in range({1: 1, 2: 2, 3: 3}[bd], dof_n):
+        Dd[m::dof_n] = 1.0 / L
+    Kc = (K.toarray() * Dd[:, None]) * Dd[None, :]
+    Mc = (M.toarray() * Dd[:, None]) * Dd[None, :]
+    sK, Kd = spectrum(Kc[dofs][:, dofs])
+    sM, Md = spectrum(Mc[dofs][:, dofs])
     P = np.asarray(beam._Calc_P(), dtype=float)
     res = {"Nn": int(mesh.Nn), "Ne": int(mesh.Ne), "dof_n": int(dof_n), "K": sK, "M": sM, "L": L,
            "mass_prop": float(simu.mass), "area": float(section.area), "M_dir": [],
@@ -291,7 +322,7 @@ def run_beam(case):
     if bd == 1:
         R = R.reshape(-1, 1)
     KR = K @ R
-    res["rigid_residual"] = [float(np.abs(KR[:, k]).max() / (sK["absmax"] * max(np.abs(R[:, k]).max(), 1e-300))) for k in range(R.shape[1])]
+    res["rigid_residual"] = [rel_residual(K, R[:, k]) for k in range(R.shape[1])]
     return res
 
 
@@ -394,6 +425,10 @@ def run_grid(case):
     X, conn, meas = grid_data(case)
     et = getattr(ElemType, case["elem"])
     mesh = Mesh({et: GroupElemFactory.Create(et, conn, X)})
+    if case.get("scale") is not None:
+        # the mesh is built at unit scale and converted to another length unit with the public setter
+        mesh.coord = np.asarray(mesh.coord, dtype=float) * float(case["scale"])
+        X = X * float(case["scale"])
     g = mesh.groupElem
     Ne = int(conn.shape[0])
     npg = {"mass": int(g.Get_gauss(MatrixType.mass).nPg), "rigi": int(g.Get_gauss(MatrixType.rigi).nPg)}
@@ -433,6 +468,7 @@ def run_grid(case):
         K, C, M, F = simu.Get_K_C_M_F()
         # gradient lying in the (possibly embedded) element plane / line
         a_ref = np.zeros(3); a_ref[:dim] = rs.uniform(-1, 1, dim)
+        a_ref = a_ref / float(case.get("scale") or 1.0)
         a = (np.asarray(case["embed"]["R"], dtype=float) @ a_ref) if case.get("embed") is not None else a_ref
         T = X @ a + 0.3
         res["density_e"] = [float(a_ref @ a_ref)] * Ne        # |grad T|^2 ; conductivity applied by the caller
